@@ -290,6 +290,19 @@ func (s *Svc) Note(ctx context.Context, tok string) error {
 	return nil
 }
 
+// BoomV panics in a method whose Go signature has no error result; BoomVoid in one with no results at all.
+func (s *Svc) BoomV(ctx context.Context, tok string, kind int) string {
+	r, _ := s.enter(ctx, "BoomV", tok)
+	defer s.exit(ctx, r)
+	DoPanic(kind, tok)
+	return "survived:" + tok
+}
+func (s *Svc) BoomVoid(ctx context.Context, tok string, kind int) {
+	r, _ := s.enter(ctx, "BoomVoid", tok)
+	defer s.exit(ctx, r)
+	DoPanic(kind, tok)
+}
+
 func (s *Svc) Boom(ctx context.Context, tok string, kind int) (string, error) {
 	r, _ := s.enter(ctx, "Boom", tok)
 	defer s.exit(ctx, r)
@@ -702,6 +715,8 @@ type Client struct {
 	NoteR           func(ctx context.Context, tok string) error `notify:"true" retry:"true" rpc_method:"S.Note"`
 	Boom            func(ctx context.Context, tok string, kind int) (string, error)
 	BoomR           func(ctx context.Context, tok string, kind int) (string, error) `retry:"true" rpc_method:"S.Boom"`
+	BoomV           func(ctx context.Context, tok string, kind int) (string, error) // the handler method itself returns only a string
+	BoomVoid        func(ctx context.Context, tok string, kind int) error           // the handler method itself returns nothing
 	BoomPtr         func(ctx context.Context, tok string, p *Custom) (string, error)
 	BoomNote        func(ctx context.Context, tok string, kind int) error `notify:"true"`
 	BoomAfterCancel func(ctx context.Context, tok string, kind int) (string, error)
